@@ -7,7 +7,8 @@ package main
 //	                                            output also carries the filtered listing of an independent walk
 //	1703  (view)                                WriteTar -> own extractor into WorkDir -> SnapshotRaw
 //	1705  (((dirstat view)...))                 fsutil.SubDirFS over several MemFS mounts -> WriteTar
-//	1704  (view (mapexcl...) (incl...) (excl...) [((src dst)...)]) view materialised on disk (+ extra hard links); fsutil.NewFS(dir) -> NewFilterFS with a
+//	1704  (view (mapexcl...) (incl...) (excl...) [((src dst)...) [layer]]) view materialised on disk (+ extra hard links);
+//	                                            layer: which FS layers sit between the on-disk walker and WriteTar (c17DiskLayers) fsutil.NewFS(dir) -> NewFilterFS with a
 //	                                            Map function excluding the listed paths (+ patterns) -> WriteTar;
 //	                                            output (snapshot listed-paths archive-result pattern-table)
 //
@@ -267,6 +268,62 @@ func run1702(in Sx) (out Sx) {
 
 // ---- kind 1704: the real on-disk walker under a filter with a Map table ---------------------
 
+// c17InfoFS is a consumer in front of the FS that asks every entry for its Info() before handing it on
+// (as any wrapper that looks at the stat does): Info() must be repeatable.
+type c17InfoFS struct{ fsutil.FS }
+
+func (c c17InfoFS) Walk(ctx context.Context, target string, fn gofs.WalkDirFunc) error {
+	return c.FS.Walk(ctx, target, func(p string, d gofs.DirEntry, err error) error {
+		if err == nil && d != nil {
+			if _, ierr := d.Info(); ierr != nil {
+				return ierr
+			}
+		}
+		return fn(p, d, err)
+	})
+}
+
+// c17DiskLayers builds the FS handed to WriteTar over the on-disk walker.  layer & 15:
+//
+//	0 NewFilterFS(NewFS, {Map, patterns})     1 NewFS alone (no filter layer at all)
+//	2 WithHardlinkReset(NewFS)                3 NewFilterFS(NewFS, nil)  (= NewFS)
+//	4 NewFilterFS(NewFS, &FilterOpt{})        5 WithHardlinkReset(NewFilterFS(NewFS, {Map, patterns}))
+//
+// layer & 16: an Info()-calling consumer (c17InfoFS) on top.  Layers 1-4 ignore the Map table and the patterns.
+func c17DiskLayers(root string, layer int, mexcl map[string]bool, incl, excl []string) (fsutil.FS, error) {
+	var fs fsutil.FS
+	var err error
+	switch layer & 15 {
+	case 0:
+		fs, err = c17DiskFiltered(root, mexcl, incl, excl)
+	case 5:
+		fs, err = c17DiskFiltered(root, mexcl, incl, excl)
+		if err == nil {
+			fs = fsutil.WithHardlinkReset(fs)
+		}
+	default:
+		fs, err = fsutil.NewFS(root)
+		if err != nil {
+			return nil, err
+		}
+		switch layer & 15 {
+		case 2:
+			fs = fsutil.WithHardlinkReset(fs)
+		case 3:
+			fs, err = fsutil.NewFilterFS(fs, nil)
+		case 4:
+			fs, err = fsutil.NewFilterFS(fs, &fsutil.FilterOpt{})
+		}
+	}
+	if err != nil {
+		return nil, err
+	}
+	if layer&16 != 0 {
+		fs = c17InfoFS{fs}
+	}
+	return fs, nil
+}
+
 func c17DiskFiltered(root string, mexcl map[string]bool, incl, excl []string) (fsutil.FS, error) {
 	base, err := fsutil.NewFS(root)
 	if err != nil {
@@ -328,7 +385,14 @@ func run1704(in Sx) (out Sx) {
 		snap[i] = e.Sx()
 		allPaths = append(allPaths, e.Path)
 	}
-	fs1, err := c17DiskFiltered(root, mexcl, incl, excl)
+	layer := 0
+	if len(in.L) > 5 {
+		layer = in.L[5].Int()
+	}
+	if l := layer & 15; l >= 1 && l <= 4 { // no filter layer: nothing is excluded
+		mexcl, incl, excl = map[string]bool{}, nil, nil
+	}
+	fs1, err := c17DiskLayers(root, layer&15, mexcl, incl, excl) // paths only: this walk never asks for Info()
 	if err != nil {
 		return L(N(9))
 	}
@@ -343,7 +407,7 @@ func run1704(in Sx) (out Sx) {
 	if err != nil {
 		return L(N(0xfffd), S("independent walk: "+err.Error()))
 	}
-	fs2, err := c17DiskFiltered(root, mexcl, incl, excl)
+	fs2, err := c17DiskLayers(root, layer, mexcl, incl, excl)
 	if err != nil {
 		return L(N(9))
 	}
@@ -968,7 +1032,7 @@ func genC17(g *Gen) {
 	// (e) the real on-disk walker under a filter whose Map function excludes entries AFTER they were stat'ed:
 	// hard-link groups of non-empty files whose first name in walk order is map-excluded (the next name must
 	// be promoted to the group's regular member with all its bytes), also combined with patterns
-	nDiskF := g.Vol(36, 700)
+	nDiskF := g.Vol(56, 1100)
 	for i := 0; i < nDiskF; i++ {
 		roots := c17GenView(r, false)
 		if r.Chance(60) {
@@ -1069,9 +1133,22 @@ func genC17(g *Gen) {
 				}
 			}
 		}
-		in := L(ViewSx(roots), L(mexl...), L(incl...), L(excl...), L(extras...))
+		// which layers sit between the walker and WriteTar: the Map/pattern filter (as above), none at all (the raw
+		// walker's entries reach WriteTar's own hard-link reset and WriteTar itself: several Info() consumers per
+		// entry), a caller-side reset, a nil / empty filter, reset over filter; optionally one more Info() consumer
+		layer := 0
+		if i%5 >= 3 || r.Chance(15) {
+			layer = Pick(r, []int{1, 1, 2, 3, 4, 5})
+		}
+		if r.Chance(25) {
+			layer |= 16
+		}
+		if l := layer & 15; l >= 1 && l <= 4 {
+			mexl, incl, excl, firstExcluded = nil, nil, nil, false
+		}
+		in := L(ViewSx(roots), L(mexl...), L(incl...), L(excl...), L(extras...), NI(layer))
 		out := run1704(in)
-		nt := firstExcluded && len(out.L) == 4 && len(out.L[2].L) > 0 && out.L[2].L[0].U64() == 0 && len(out.L[1].L) >= 3
+		nt := (firstExcluded || (layer&15 >= 1 && layer&15 <= 4)) && len(out.L) == 4 && len(out.L[2].L) > 0 && out.L[2].L[0].U64() == 0 && len(out.L[1].L) >= 3
 		cls := "diskf-?"
 		if len(out.L) == 4 {
 			cls = c17Class("diskf", out.L[2])
@@ -1081,6 +1158,10 @@ func genC17(g *Gen) {
 		}
 		if len(extras) > 0 {
 			cls += "-speclinks"
+		}
+		cls += fmt.Sprintf("-L%d", layer&15)
+		if layer&16 != 0 {
+			cls += "i"
 		}
 		g.EmitWith(0x1704, in, out, nt, cls)
 	}
